@@ -15,6 +15,7 @@ import (
 	"bufio"
 	"bytes"
 	"context"
+	"crypto/hmac"
 	"crypto/md5"
 	"encoding/binary"
 	"encoding/json"
@@ -40,15 +41,20 @@ type Dg struct {
 	Cause uint32 `json:"cause,omitempty"` //
 	Msg   []byte `json:"msg,omitempty"`   //
 	Tag   string `json:"tag,omitempty"`
+	// claim about the request's Message-Authenticator (attribute 80), checked on the Coq side against a
+	// Gallina HMAC-MD5: 0 no claim, 1 first attribute 80 carries the valid HMAC-MD5, 2 present but not valid
+	Ma int `json:"ma,omitempty"`
 }
 type Case struct {
-	Secret []byte `json:"secret"`
-	CoA    bool   `json:"coa"` // CoA handler installed
-	DM     bool   `json:"dm"`  // Disconnect handler installed
-	Mode   string `json:"mode,omitempty"` // "" hook (recover-safe) | "e2e" plain Start() in a child process | "proc" real CoAProcessor handlers
-	Md5    bool   `json:"md5,omitempty"`  // evaluate the first steps with the Gallina MD5 instead of the table
-	Dgs    []Dg   `json:"dgs"`
-	Family string `json:"family,omitempty"`
+	Secret  []byte `json:"secret"`
+	CoA     bool   `json:"coa"`               // CoA handler installed
+	DM      bool   `json:"dm"`                // Disconnect handler installed
+	Mode    string `json:"mode,omitempty"`    // "" hook (recover-safe) | "e2e" plain Start() in a child process | "proc" real CoAProcessor handlers | "burst" | "dual"
+	Burst   int    `json:"burst,omitempty"`   // burst mode: this many datagrams are written back to back before the sync request
+	Secret2 []byte `json:"secret2,omitempty"` // dual mode: secret of the second listener running next to the first
+	Md5     bool   `json:"md5,omitempty"`     // evaluate the first steps with the Gallina MD5 instead of the table
+	Dgs     []Dg   `json:"dgs"`
+	Family  string `json:"family,omitempty"`
 }
 
 // ---------------------------------------------------------------- observation
@@ -78,6 +84,8 @@ type Obs struct {
 }
 
 const syncUser = "\x00s"
+
+var globalTimeouts int // sync requests of this run that were never answered
 
 func buildReq(code, id byte, attrs []byte, secret []byte) []byte {
 	p := make([]byte, 20+len(attrs))
@@ -130,19 +138,19 @@ func respKey(dg, r, secret []byte) []byte {
 // ---------------------------------------------------------------- running against the real server
 
 type server struct {
-	srv     *radius.CoAServer
-	cancel  context.CancelFunc
-	ctx     context.Context
-	panicCh chan string
-	cli     *net.UDPConn
-	respCh  chan []byte
-	mu      sync.Mutex
-	calls   []Call
-	cur     *Dg // handler answer for the datagram under test
-	lastAns *Obs
-	proc    *radius.CoAProcessor
+	srv      *radius.CoAServer
+	cancel   context.CancelFunc
+	ctx      context.Context
+	panicCh  chan string
+	cli      *net.UDPConn
+	respCh   chan []byte
+	mu       sync.Mutex
+	calls    []Call
+	cur      *Dg // handler answer for the datagram under test
+	lastAns  *Obs
+	proc     *radius.CoAProcessor
 	timeouts int
-	effects int // terminator / policy-updater invocations (proc mode)
+	effects  int // terminator / policy-updater invocations (proc mode)
 }
 
 func ipb(ip net.IP) []byte {
@@ -270,10 +278,20 @@ func (s *server) deliver(d *Dg, secret []byte, k int) (Obs, []byte, Obs) {
 		panic(err)
 	}
 	var o, so Obs
-	if s.timeouts >= 3 { // the listener stopped answering: do not wait 3 s for every remaining datagram
+	// On a tree whose listener answers every authentic request the sync response always arrives and no
+	// timer decides anything. The deadline only ends the wait for a listener that stopped answering; it
+	// is long (the machine may be heavily loaded: a false "no answer" would be a false alarm) until the
+	// run has seen two such waits expire, then short, and a listener that did not answer is not waited
+	// for again.
+	limit := 3
+	wait := 20 * time.Second
+	if globalTimeouts >= 2 {
+		limit, wait = 1, 2*time.Second
+	}
+	if s.timeouts >= limit {
 		return Obs{}, syn, Obs{}
 	}
-	deadline := time.After(3 * time.Second)
+	deadline := time.After(wait)
 wait:
 	for {
 		select {
@@ -290,6 +308,7 @@ wait:
 			s.srv.VerifRestartLoop(s.ctx, s.panicCh)
 		case <-deadline:
 			s.timeouts++
+			globalTimeouts++
 			break wait
 		}
 	}
@@ -327,6 +346,150 @@ func runHook(c Case) []step {
 		out = append(out, step{D: d, O: o}, step{D: Dg{B: syn, Ok: true, Tag: "sync"}, O: so, Syn: true})
 	}
 	return out
+}
+
+// ---- burst mode: several datagrams written back to back, then one sync request. The listener reads
+// them one after the other into the same buffer with nothing in between. Attribution of what comes
+// back (no knowledge of the expected behaviour is used): inside a burst only byte-identical datagrams
+// share an identifier (generator); the j-th response with an identifier belongs to the j-th datagram
+// with that identifier; the j-th call of the handler of
+// kind K belongs to the j-th response of kind K (code K+1 / K+2) when a handler of that kind is
+// installed. Anything that cannot be attributed (unknown identifier, surplus calls) is attached to
+// the last datagram of the burst, where it is a mismatch. A panic inside a burst cannot be attributed:
+// the case is then run again datagram by datagram.
+func (s *server) deliverBurst(ds []Dg, secret []byte, k int) ([]Obs, []byte, Obs, bool) {
+	used := map[byte]bool{}
+	for _, d := range ds {
+		if len(d.B) >= 2 {
+			used[d.B[1]] = true
+		}
+	}
+	sid := byte(0)
+	for used[sid] {
+		sid++
+	}
+	scode := byte(43)
+	if k%2 == 1 {
+		scode = 40
+	}
+	syn := buildReq(scode, sid, attr(1, []byte(syncUser)), secret)
+	s.mu.Lock()
+	s.calls = nil
+	s.cur = &ds[0] // one handler answer for the whole burst (generator)
+	s.lastAns = nil
+	s.mu.Unlock()
+	for _, d := range ds {
+		if _, err := s.cli.Write(d.B); err != nil {
+			panic(fmt.Sprintf("send: %v (len %d)", err, len(d.B)))
+		}
+	}
+	if _, err := s.cli.Write(syn); err != nil {
+		panic(err)
+	}
+	obs := make([]Obs, len(ds))
+	var so Obs
+	var resps [][]byte
+	deadline := time.After(20 * time.Second)
+wait:
+	for {
+		select {
+		case r := <-s.respCh:
+			if len(r) >= 2 && r[1] == sid {
+				so.Resps = append(so.Resps, r)
+				break wait
+			}
+			resps = append(resps, r)
+		case <-s.panicCh:
+			s.srv.VerifRestartLoop(s.ctx, s.panicCh)
+			return nil, nil, Obs{}, false
+		case <-deadline:
+			return nil, nil, Obs{}, false
+		}
+	}
+	last := len(ds) - 1
+	owner := make([]int, len(resps))
+	taken := make([]bool, len(ds))
+	for i, r := range resps {
+		owner[i] = last
+		if len(r) >= 2 {
+			for j, d := range ds { // the first datagram with this identifier that has no response yet
+				if !taken[j] && len(d.B) >= 2 && d.B[1] == r[1] {
+					owner[i], taken[j] = j, true
+					break
+				}
+			}
+		}
+		obs[owner[i]].Resps = append(obs[owner[i]].Resps, r)
+	}
+	s.mu.Lock()
+	next := map[int]int{}
+	for _, c := range s.calls {
+		if c.Sync {
+			so.Calls = append(so.Calls, c)
+			continue
+		}
+		at := last
+		for i := next[c.Kind]; i < len(resps); i++ {
+			if len(resps[i]) >= 1 && (int(resps[i][0]) == c.Kind+1 || int(resps[i][0]) == c.Kind+2) {
+				at = owner[i]
+				next[c.Kind] = i + 1
+				break
+			}
+		}
+		if at == last {
+			next[c.Kind] = len(resps)
+		}
+		obs[at].Calls = append(obs[at].Calls, c)
+	}
+	s.mu.Unlock()
+	return obs, syn, so, true
+}
+
+func runBurst(c Case) []step {
+	s := startServer(c, false)
+	var out []step
+	b := c.Burst
+	if b < 1 {
+		b = 1
+	}
+	for i, k := 0, 0; i < len(c.Dgs); i, k = i+b, k+1 {
+		j := i + b
+		if j > len(c.Dgs) {
+			j = len(c.Dgs)
+		}
+		ds := c.Dgs[i:j]
+		obs, syn, so, ok := s.deliverBurst(ds, c.Secret, k)
+		if !ok { // panic or silence inside a burst: attribute precisely, datagram by datagram
+			s.stop()
+			return runHook(c)
+		}
+		for x := range ds {
+			out = append(out, step{D: ds[x], O: obs[x]})
+		}
+		out = append(out, step{D: Dg{B: syn, Ok: true, Tag: "sync"}, O: so, Syn: true})
+	}
+	s.stop()
+	return out
+}
+
+// ---- dual mode: a second listener (own socket, own secret, own handlers) runs in the same process;
+// every datagram is delivered to both, alternating. Each listener's trace is a case of its own.
+func runDual(c Case) ([]step, []step) {
+	c2 := c
+	c2.Secret = c.Secret2
+	s1 := startServer(c, false)
+	defer s1.stop()
+	s2 := startServer(c2, false)
+	defer s2.stop()
+	var o1, o2 []step
+	for k := range c.Dgs {
+		d := c.Dgs[k]
+		a, syn, so := s1.deliver(&d, c.Secret, k)
+		o1 = append(o1, step{D: d, O: a}, step{D: Dg{B: syn, Ok: true, Tag: "sync"}, O: so, Syn: true})
+		b, syn2, so2 := s2.deliver(&d, c2.Secret, k)
+		o2 = append(o2, step{D: d, O: b}, step{D: Dg{B: syn2, Ok: true, Tag: "sync"}, O: so2, Syn: true})
+	}
+	return o1, o2
 }
 
 // ---- e2e: plain Start() (no recover) in a child process; a crash of the child is the outcome Panic
@@ -500,8 +663,8 @@ func emit(c Case, steps []step, st *stats) vh.Case {
 			cl = append(cl, vh.Pair(vh.N(uint64(cc.Kind)), reqTerm(cc.Req)))
 		}
 		useMd5 := c.Md5 && len(tr) < 6
-		tr = append(tr, fmt.Sprintf("st %s %s %d %s %s %s %s %s %s %s", dgTerm(base, dg), vh.Bool(s.D.Ok), s.D.Cause, vh.Bytes(s.D.Msg),
-			vh.Bool(authentic), rd, vh.List(rl), vh.List(cl), vh.Bool(s.O.Panic), vh.Bool(useMd5)))
+		tr = append(tr, fmt.Sprintf("st %s %s %d %s %s %s %s %s %s %s %d", dgTerm(base, dg), vh.Bool(s.D.Ok), s.D.Cause, vh.Bytes(s.D.Msg),
+			vh.Bool(authentic), rd, vh.List(rl), vh.List(cl), vh.Bool(s.O.Panic), vh.Bool(useMd5), s.D.Ma))
 	}
 	var tl []string
 	for t := range tags {
@@ -511,22 +674,31 @@ func emit(c Case, steps []step, st *stats) vh.Case {
 	return vh.Case{Coq: coq, Desc: c, Tags: tl}
 }
 
-func run(c Case, st *stats) vh.Case {
-	var steps []step
-	if c.Mode == "e2e" {
-		steps = runE2E(c)
-	} else {
-		steps = runHook(c)
+func run(c Case, st *stats) []vh.Case {
+	switch c.Mode {
+	case "e2e":
+		return []vh.Case{emit(c, runE2E(c), st)}
+	case "burst":
+		return []vh.Case{emit(c, runBurst(c), st)}
+	case "dual":
+		o1, o2 := runDual(c)
+		c2 := c
+		c2.Secret, c2.Secret2, c2.Family = c.Secret2, c.Secret, c.Family+"-second"
+		// the second listener's case is replayable on its own (it is the first listener of the mirrored case)
+		return []vh.Case{emit(c, o1, st), emit(c2, o2, st)}
 	}
-	return emit(c, steps, st)
+	return []vh.Case{emit(c, runHook(c), st)}
 }
 
 // ---------------------------------------------------------------- generators
 
-var attrTypes = []byte{1, 4, 8, 31, 44, 27, 28, 11, 25, 26, 30, 5, 101, 0, 255}
+var attrTypes = []byte{1, 4, 8, 31, 44, 27, 28, 11, 25, 26, 30, 5, 101, 0, 255, 80, 33, 18, 24, 55}
 
 func genAttr(r *vh.Rng) []byte {
 	t := attrTypes[r.Intn(len(attrTypes))]
+	if r.Chance(1, 5) { // any type at all
+		t = byte(r.Intn(256))
+	}
 	var n int
 	switch x := r.Intn(10); {
 	case x < 5:
@@ -810,6 +982,82 @@ func genProc(r *vh.Rng) Case {
 	return c
 }
 
+// bursts: the datagrams of the random generator; inside a burst only byte-identical datagrams (immediate
+// retransmissions, inserted here) share an identifier; one handler answer per burst
+func genBurst(r *vh.Rng) Case {
+	c := genRandom(r)
+	c.Mode, c.Family = "burst", "burst"
+	c.Burst = 2 + r.Intn(7)
+	var dgs []Dg
+	for _, d := range c.Dgs { // immediate retransmissions
+		dgs = append(dgs, d)
+		if r.Chance(1, 4) {
+			d2 := d
+			d2.Tag += "+dup"
+			dgs = append(dgs, d2)
+			if r.Chance(1, 3) {
+				dgs = append(dgs, d2)
+			}
+		}
+	}
+	c.Dgs = dgs
+	for i := 0; i < len(c.Dgs); i += c.Burst {
+		used := map[byte][]byte{}
+		for j := i; j < i+c.Burst && j < len(c.Dgs); j++ {
+			d := &c.Dgs[j]
+			d.Ok, d.Cause, d.Msg = c.Dgs[i].Ok, c.Dgs[i].Cause, c.Dgs[i].Msg
+			if len(d.B) < 2 {
+				continue
+			}
+			if o, ok := used[d.B[1]]; ok && !bytes.Equal(o, d.B) { // re-number (re-signing what was authentic)
+				key, complete := reqKey(d.B, c.Secret)
+				was := false
+				if complete {
+					x := md5.Sum(key)
+					was = bytes.Equal(x[:], d.B[4:20])
+				}
+				d.B = append([]byte{}, d.B...)
+				for used[d.B[1]] != nil {
+					d.B[1]++
+				}
+				if was {
+					sign(d.B, int(binary.BigEndian.Uint16(d.B[2:4])), c.Secret)
+				}
+				d.Tag += "+renumbered"
+			}
+			used[d.B[1]] = d.B
+		}
+	}
+	return c
+}
+
+// two listeners side by side: requests signed for the one, for the other, for neither
+func genDual(r *vh.Rng) Case {
+	c := genRandom(r)
+	c.Mode, c.Family = "dual", "dual"
+	c.Secret2 = genSecret(r)
+	if bytes.Equal(c.Secret2, c.Secret) {
+		c.Secret2 = append(c.Secret2, 'x')
+	}
+	n := len(c.Dgs)
+	for i := 0; i < n; i++ {
+		if r.Chance(1, 2) {
+			d := c.Dgs[i]
+			key, complete := reqKey(d.B, c.Secret)
+			if complete {
+				x := md5.Sum(key)
+				if bytes.Equal(x[:], d.B[4:20]) { // the same request, signed for the second listener
+					d.B = append([]byte{}, d.B...)
+					sign(d.B, int(binary.BigEndian.Uint16(d.B[2:4])), c.Secret2)
+					d.Tag += "+for-second"
+					c.Dgs = append(c.Dgs, d)
+				}
+			}
+		}
+	}
+	return c
+}
+
 func genE2E(r *vh.Rng) Case {
 	c := genRandom(r)
 	c.Mode, c.Family = "e2e", "e2e-plain-start"
@@ -819,6 +1067,217 @@ func genE2E(r *vh.Rng) Case {
 	binary.BigEndian.PutUint16(b[2:4], uint16(r.Intn(20)))
 	c.Dgs = append(c.Dgs, Dg{B: b, Tag: "lenfield"})
 	c.Dgs = append(c.Dgs, Dg{B: buildReq(40, 9, attr(44, []byte("sess-1")), secret), Ok: true, Tag: "valid"})
+	return c
+}
+
+// ---- attribute coverage: every attribute type, Message-Authenticator, long / many attributes
+
+// buildReqMA builds a signed request whose attribute list is pre ++ Message-Authenticator ++ post.
+// mode 0: valid HMAC-MD5 (RFC 5176 3.5: computed over the packet with a zero Request Authenticator and
+// a zero Message-Authenticator value, keyed with the secret); 1 random value; 2 zero value; 3 one bit
+// off; 4/5/6 value of 0/15/17 bytes; 7 valid, followed by a second (random) Message-Authenticator.
+// Returns the datagram and the claim (1 valid, 2 not valid) checked by the Coq side.
+func buildReqMA(code, id byte, pre, post, secret []byte, mode int, r *vh.Rng) ([]byte, int) {
+	vlen := 16
+	switch mode {
+	case 4:
+		vlen = 0
+	case 5:
+		vlen = 15
+	case 6:
+		vlen = 17
+	}
+	at := append([]byte{}, pre...)
+	off := 20 + len(at) + 2
+	at = append(at, attr(80, make([]byte, vlen))...)
+	at = append(at, post...)
+	if mode == 7 {
+		at = append(at, attr(80, r.Bytes(16))...)
+	}
+	p := make([]byte, 20+len(at))
+	p[0], p[1] = code, id
+	binary.BigEndian.PutUint16(p[2:4], uint16(len(p)))
+	copy(p[20:], at)
+	claim := 2
+	switch mode {
+	case 0, 3, 7:
+		mac := hmac.New(md5.New, secret)
+		mac.Write(p)
+		copy(p[off:off+16], mac.Sum(nil))
+		claim = 1
+		if mode == 3 {
+			p[off+r.Intn(16)] ^= 1 << r.Intn(8)
+			claim = 2
+		}
+	case 1:
+		copy(p[off:off+16], r.Bytes(16))
+	case 5, 6:
+		copy(p[off:off+vlen], r.Bytes(vlen))
+	}
+	sign(p, len(p), secret)
+	return p, claim
+}
+
+var specialTypes = []byte{18, 24, 25, 26, 32, 33, 49, 55, 79, 80, 87, 101, 241, 245}
+
+// every attribute type 0..255 in a signed request of either kind (exhaustive), the types a CoA server
+// could react to with every value-length class, long and many attributes up to the 4096-byte buffer
+func genAttrTypes(r *vh.Rng) []Case {
+	secret := genSecret(r)
+	var dgs []Dg
+	add := func(b []byte, tag string) {
+		d := Dg{B: b, Tag: tag}
+		genAnswer(r, &d)
+		dgs = append(dgs, d)
+	}
+	lens := []int{0, 1, 4, 16, 253}
+	for t := 0; t < 256; t++ {
+		for ci, cd := range []byte{40, 43} {
+			at := attr(byte(t), r.Bytes(lens[(t+ci)%len(lens)]))
+			switch (t + ci) % 3 { // alone, after, before ordinary attributes
+			case 1:
+				at = append(attr(44, []byte("sess-1")), at...)
+			case 2:
+				at = append(at, attr(1, []byte("alice"))...)
+			}
+			add(buildReq(cd, byte(t), at, secret), "attrtype-all")
+		}
+	}
+	for _, t := range specialTypes {
+		for _, n := range []int{0, 1, 2, 4, 6, 15, 16, 17, 18, 253} {
+			for _, cd := range []byte{40, 43} {
+				add(buildReq(cd, byte(r.Intn(256)), attr(t, r.Bytes(n)), secret), fmt.Sprintf("attrtype-%d", t))
+			}
+		}
+		// twice, around an ordinary attribute
+		at := append(append(attr(t, r.Bytes(16)), attr(44, []byte("sess-2"))...), attr(t, r.Bytes(4))...)
+		add(buildReq(code(r), byte(r.Intn(256)), at, secret), fmt.Sprintf("attrtype-%d", t))
+	}
+	// Vendor-Specific: vendor id + well-formed / broken sub-attributes
+	for _, v := range [][]byte{{0, 0, 0x0d, 0xe9, 1, 6, 'g', 'o', 'l', 'd'}, {0, 0, 0, 9, 1, 2}, {0, 0, 0, 9, 1, 200, 1}, {0, 0, 0}, {0, 0, 0, 9}} {
+		add(buildReq(code(r), byte(r.Intn(256)), attr(26, v), secret), "attrtype-26")
+	}
+	// long and many attributes
+	many := func(k int, tf func(i int) byte, vlen int) []byte {
+		var a []byte
+		for i := 0; i < k; i++ {
+			a = append(a, attr(tf(i), r.Bytes(vlen))...)
+		}
+		return a
+	}
+	cyc := func(i int) byte { return byte(i) }
+	c80 := func(i int) byte { return 80 }
+	add(buildReq(43, 1, many(2038, cyc, 0), secret), "attrs-many")                                    // 4096 bytes exactly
+	add(buildReq(40, 2, many(2038, c80, 0), secret), "attrs-many")                                    //
+	add(buildReq(43, 3, many(2037, cyc, 0), secret), "attrs-many")                                    // 4094
+	add(buildReq(43, 4, many(2039, cyc, 0), secret), "attrs-many")                                    // 4098: cut by the 4096-byte read
+	add(buildReq(40, 5, many(15, cyc, 253), secret), "attrs-long")                                    // 15 x 255 = 3825
+	add(buildReq(43, 6, append(many(15, c80, 253), attr(80, r.Bytes(249))...), secret), "attrs-long") // 4096 exactly
+	add(buildReq(43, 7, append(many(15, cyc, 253), attr(33, r.Bytes(250))...), secret), "attrs-long") // 4097
+	add(buildReq(40, 8, many(300, cyc, 11), secret), "attrs-many")
+	proto := Case{Secret: secret, CoA: true, DM: true, Family: "attrtypes"}
+	out := chunk(dgs, 48, proto)
+	// the same requests against a listener without handlers (defaults answer)
+	proto2 := Case{Secret: secret, CoA: false, DM: false, Family: "attrtypes-nohandler"}
+	var sub []Dg
+	for i := 0; i < len(dgs); i += 7 {
+		sub = append(sub, dgs[i])
+	}
+	return append(out, chunk(sub, 48, proto2)...)
+}
+
+// every RADIUS code 0..255, validly signed and with the authenticator of the original code (exhaustive)
+func genCodes(r *vh.Rng) []Case {
+	secret := genSecret(r)
+	base := buildReq(43, byte(r.Intn(256)), append(attr(44, []byte("sess-3")), attr(11, []byte("gold"))...), secret)
+	var dgs []Dg
+	for c := 0; c < 256; c++ {
+		m := append([]byte{}, base...)
+		m[0] = byte(c)
+		d := Dg{B: m, Tag: "code-all-unsigned"}
+		if c == 43 {
+			d.Tag = "valid"
+		}
+		genAnswer(r, &d)
+		dgs = append(dgs, d)
+		m = append([]byte{}, m...)
+		sign(m, len(m), secret)
+		d = Dg{B: m, Tag: "code-all-signed"}
+		genAnswer(r, &d)
+		dgs = append(dgs, d)
+	}
+	return chunk(dgs, 64, Case{Secret: secret, CoA: true, DM: r.Bool(), Family: "codes"})
+}
+
+func has80(at []byte) bool {
+	for i := 0; i+1 < len(at) && at[i+1] >= 2; i += int(at[i+1]) {
+		if at[i] == 80 {
+			return true
+		}
+	}
+	return false
+}
+
+// requests carrying a Message-Authenticator: valid / invalid HMAC, every position, odd lengths, two of them
+func genMsgAuth(r *vh.Rng) Case {
+	secret := genSecret(r)
+	c := Case{Secret: secret, CoA: r.Chance(4, 5), DM: r.Chance(4, 5), Family: "msgauth"}
+	for mode := 0; mode <= 7; mode++ {
+		for rep := 0; rep < 2; rep++ {
+			var pre, post []byte
+			switch r.Intn(4) {
+			case 0:
+				pre = genAttrs(r, 1+r.Intn(3))
+			case 1:
+				post = genAttrs(r, 1+r.Intn(3))
+			case 2:
+				pre, post = genAttrs(r, 1+r.Intn(2)), genAttrs(r, 1+r.Intn(2))
+			}
+			if has80(pre) { // the claim is about the FIRST attribute 80 of the packet
+				pre = nil
+			}
+			b, claim := buildReqMA(code(r), byte(r.Intn(256)), pre, post, secret, mode, r)
+			d := Dg{B: b, Tag: fmt.Sprintf("msgauth-mode%d", mode), Ma: claim}
+			genAnswer(r, &d)
+			c.Dgs = append(c.Dgs, d)
+			if rep == 1 && r.Bool() { // valid Message-Authenticator, Request Authenticator not valid
+				m := append([]byte{}, b...)
+				m[4+r.Intn(16)] ^= 1 << r.Intn(8)
+				d2 := Dg{B: m, Tag: "msgauth-bad-reqauth", Ma: claim}
+				genAnswer(r, &d2)
+				c.Dgs = append(c.Dgs, d2)
+			}
+		}
+	}
+	return c
+}
+
+// retransmissions and identifier reuse: the listener has no duplicate detection; every authentic
+// datagram is a request of its own (handler called, answered with the handler's CURRENT answer)
+func genRetransmit(r *vh.Rng) Case {
+	secret := genSecret(r)
+	c := Case{Secret: secret, CoA: r.Chance(4, 5), DM: r.Chance(4, 5), Family: "retransmit"}
+	id := byte(r.Intn(256))
+	cd := code(r)
+	add := func(b []byte, tag string) {
+		d := Dg{B: b, Tag: tag}
+		genAnswer(r, &d)
+		c.Dgs = append(c.Dgs, d)
+	}
+	a := buildReq(cd, id, genAttrs(r, 1+r.Intn(4)), secret)
+	add(a, "valid")
+	add(append([]byte{}, a...), "retransmit-same")
+	add(append([]byte{}, a...), "retransmit-same")
+	add(buildReq(cd, id, genAttrs(r, 1+r.Intn(4)), secret), "retransmit-id-new-content")
+	add(buildReq(83-cd, id, genAttrs(r, r.Intn(3)), secret), "retransmit-id-other-kind")
+	m := append([]byte{}, a...) // same identifier and authenticator, attributes changed: not authentic
+	m[20+r.Intn(len(m)-20)] ^= byte(1 + r.Intn(255))
+	add(m, "retransmit-id-tampered")
+	add(append([]byte{}, a...), "retransmit-same")
+	add(append(append([]byte{}, a...), r.Bytes(1+r.Intn(9))...), "retransmit-padded")
+	w := buildReqFrom(a, append([]byte("x"), secret...)) // same identifier, signed with another secret
+	add(w, "retransmit-id-wrong-secret")
+	add(append([]byte{}, a...), "retransmit-same")
 	return c
 }
 
@@ -851,7 +1310,7 @@ func main() {
 			if name == "corpus" || i%25 == 0 {
 				cs[i].Md5 = true
 			}
-			out = append(out, run(cs[i], &st))
+			out = append(out, run(cs[i], &st)...)
 		}
 		if extra == nil {
 			extra = map[string]interface{}{}
@@ -890,6 +1349,41 @@ func main() {
 	}
 	emitStream("sweep", genSweeps(r.Fork(), perCount), map[string]interface{}{"exhaustive": true,
 		"exhaustive_note": "per base request: every single-bit flip of bytes 0..23, every byte of the rest (xor 0xff, +1), length-field values 0..24,n-1,n,n+1,255,256,4096,4097,65535 (as is / re-signed), truncation at every offset (as is / re-signed), 14 other codes re-signed, wrong secrets"})
+	nat, nma, nrt := 1, 6, 8
+	if cfg.Thorough() {
+		nat, nma, nrt = 4, 60, 60
+	}
+	var as []Case
+	for i := 0; i < nat; i++ {
+		as = append(as, genAttrTypes(r.Fork())...)
+	}
+	emitStream("attrtypes", as, map[string]interface{}{"exhaustive": true,
+		"exhaustive_note": "per secret: every attribute type 0..255 in a signed request of either kind; 14 types a CoA server could react to (Reply-Message, State, Class, Vendor-Specific, Proxy-State, Event-Timestamp, EAP-Message, Message-Authenticator, Error-Cause, extended types ...) x value lengths 0,1,2,4,6,15,16,17,18,253 x both kinds; 2037/2038/2039 empty attributes and 15-16 maximum-length attributes around the 4096-byte buffer"})
+	emitStream("codes", genCodes(r.Fork()), map[string]interface{}{"exhaustive": true,
+		"exhaustive_note": "every RADIUS code 0..255 on one request, validly signed for that code and with the authenticator of code 43"})
+	var ms []Case
+	for i := 0; i < nma; i++ {
+		ms = append(ms, genMsgAuth(r.Fork()))
+	}
+	emitStream("msgauth", ms, nil)
+	var ts []Case
+	for i := 0; i < nrt; i++ {
+		ts = append(ts, genRetransmit(r.Fork()))
+	}
+	emitStream("retransmit", ts, nil)
+	nb, nd := 12, 6
+	if cfg.Thorough() {
+		nb, nd = 150, 60
+	}
+	var bs, ds []Case
+	for i := 0; i < nb; i++ {
+		bs = append(bs, genBurst(r.Fork()))
+	}
+	emitStream("burst", bs, nil)
+	for i := 0; i < nd; i++ {
+		ds = append(ds, genDual(r.Fork()))
+	}
+	emitStream("dual", ds, nil)
 	var rs []Case
 	for i := 0; i < nrand; i++ {
 		rs = append(rs, genRandom(r.Fork()))
